@@ -23,7 +23,8 @@ META = dict(
               "nondeterministic end of file at every line boundary and with one numeric field replaced by a malformed "
               "text (non-numeric, empty, absurdly large count); a cut inside a line (prefix of 1 character, 25 / 50 / 60 / 70 / 80 / 90 % and all but "
               "the last character; 3 positions for fixtures longer than 30 lines) and one deleted / duplicated / swapped line, both at 10 line positions spread over the "
-              "file; explicit and name-derived format selection",
+              "file; explicit and name-derived format selection; when a LoadError gives a line number it equals an "
+              "independent count of the lines handed out minus the lines pushed back",
         thorough="the first 400 lines of every fixture (quick: 60): a cut at each of these line boundaries, in-line cuts and line "
                  "mutations at every line instead of 10 sampled ones"),
     outside=["binary garbage, character substitutions outside numeric fields, mutations of several lines at once; a number cut "
@@ -197,6 +198,34 @@ def h_parser(ctx, fmt="xyz", fn="water_element.xyz", many=False, fault="truncate
         lines = lines[:max_lines]
         text = "".join(lines)
     explicit = ctx.choice([True, False], label="explicit-format") if fmt not in ("json_qcschema",) else True
+    import iodata.utils as U
+
+    class CountingLit(U.LineIterator):
+        """The real line iterator plus an independent count of lines handed out and pushed back."""
+
+        def __init__(self, filename):
+            super().__init__(filename)
+            self.handed_out = 0
+            ctx.scratch["lits"] = ctx.scratch.get("lits", []) + [self]
+
+        def __next__(self):
+            line = super().__next__()
+            self.handed_out += 1
+            return line
+
+        def back(self, line):
+            super().back(line)
+            self.handed_out -= 1
+    ctx.scratch["lits"] = []
+    real_lit = api.LineIterator
+    api.LineIterator = CountingLit          # in both modes (the replay must see the same bookkeeping)
+    try:
+        return _h_parser_body(ctx, api, mods, fmt, fn, many, fault, lines, text, explicit, twin, FileFormatError, LoadError)
+    finally:
+        api.LineIterator = real_lit
+
+
+def _h_parser_body(ctx, api, mods, fmt, fn, many, fault, lines, text, explicit, twin, FileFormatError, LoadError):
     with stubbed(*mods):
         only = ONLY_LINES.get(fmt)
         skipf = None
@@ -294,6 +323,11 @@ def h_parser(ctx, fmt="xyz", fn="water_element.xyz", many=False, fault="truncate
     ctx.oblige("loads-or-LoadError", out in ("ok", "LoadError") and not twin, cls=cls, detail=f"{out}: {err!r} cause={getattr(err, '__cause__', None)!r}")
     if out == "LoadError":
         ctx.oblige("error-names-the-file", path in str(err), cls=cls, detail=str(err))
+        lits = ctx.scratch.get("lits", [])
+        if getattr(err, "lineno", None) is not None and len(lits) == 1 and getattr(err, "filename", None) == path:
+            # when a line is given it is the number of the last line that was read (lines handed out minus lines pushed back)
+            ctx.oblige("error-line-is-the-last-line-read", err.lineno == lits[0].handed_out, cls=cls,
+                       detail=f"message says line {err.lineno}, {lits[0].handed_out} lines had been read")
     for d in objs:
         ok, what = _consistent(d)
         ctx.oblige("returned-object-is-consistent", ok, cls=cls, detail=str(what))
